@@ -62,11 +62,26 @@ def run_ring_property(pid, props_file, gen, rule, extra_trusted=(), assumptions=
             if r is not True:
                 n_rep_rej += 1
                 if rep_fail is None: rep_fail = (tr, r)
+        # drained single-producer runs: replay on the TERMINATION model (Disruptor/Liveness.v)
+        from ringvalidate import live_replay_many
+        for tr, r in zip(traces, live_replay_many(traces)):
+            if r is None or r is True: continue
+            n_rep_rej += 1
+            why, semantic = r
+            if semantic and pid == "C06" and reported < 3:
+                reported += 1
+                run.violation({"kind": "property-model-oracle-failed-on-implementation", "what": why, "finding": "termination-model-replay",
+                               "config": tr.cfg.to_json(), "schedule": tr.schedule, "outcome": tr.outcome,
+                               "replay_line": Cfg(tr.cfg.n, tr.cfg.multi, tr.cfg.block, tr.cfg.stages, tr.cfg.writers, tr.cfg.seed, tr.cfg.strategy,
+                                                  tr.cfg.budget, tr.cfg.spurious, tr.cfg.drain, tr.schedule).line(),
+                               "rerun": f"cd /verif && python3 bin/check.py {pid} --replay <this file>"})
+            elif rep_fail is None:
+                rep_fail = (tr, why)
     extra_dist = extra_phase(run) if extra_phase else None
     if rep_fail is not None and not run.violations and val_fail is None:
         tr, why = rep_fail
         run.violation({"kind": "correspondence-broken (the logged execution is not an execution of the proof model: replay on the extracted Pipeline.v / MultiPub.v step relation failed; the property monitors held on every explored schedule)",
-                       "correspondence": "pipe_replay_entry / ring_replay_entry vs harness/ring trace", "why": why, "config": tr.cfg.to_json(), "schedule": tr.schedule},
+                       "correspondence": "pipe_replay_entry / ring_replay_entry / live_replay_entry vs harness/ring trace", "why": why, "config": tr.cfg.to_json(), "schedule": tr.schedule},
                       name=f"corr-{run.tier}.json", no_input=True)
     if val_fail is not None and not run.violations:
         tr, why = val_fail
@@ -78,6 +93,8 @@ def run_ring_property(pid, props_file, gen, rule, extra_trusted=(), assumptions=
     run.cov["traces_validated_against_impl"] = n_validated
     run.cov["traces_replayed_on_the_proof_model"] = n_replayed
     run.cov["traces_rejected_by_the_proof_model_replay"] = n_rep_rej
+    import ringvalidate as _rv
+    run.cov["termination_model_replay"] = dict(_rv.LIVE_STATS)
     import ringvalidate
     if ringvalidate.DRIVER_FAILURES:
         run.notes.append(f"trace validation skipped for {len(ringvalidate.DRIVER_FAILURES)} traces the OCaml driver could not evaluate (stack depth; trace lengths {sorted(ringvalidate.DRIVER_FAILURES)[-3:]} events)")
@@ -116,6 +133,12 @@ def replay_ring(pid):
         tr = run_cfgs(binary, [cfg])[0]
         fs = [f for f in analyse(tr) if f.prop == pid and not (f.known and listed_open(pid, f.known))]
         for f in fs: print("FINDING", f.what)
+        if pid == "C06":
+            from ringvalidate import live_replay_many
+            ok, msg = ensure_driver()
+            r = live_replay_many([tr])[0]
+            if r not in (None, True) and r[1]:
+                print("FINDING", r[0]); fs.append(r)
         print("outcome", tr.outcome, "steps", tr.steps, "schedule reproduced:", tr.schedule[:len(cfg.replay)] == cfg.replay)
         print("REPRODUCED" if fs else "not reproduced")
         return 1 if fs else 0
